@@ -228,7 +228,7 @@ def check(ctx, run):
                 if e["kind"] == "call" and e["callee"].rsplit(".", 1)[-1] in WRITERS and "instruments" in e["callee"]:
                     bad = f"calls {e['callee']}"
                 if e["kind"] == "obj_setattr" and isinstance(e.get("obj"), Obj) and "'" not in e["obj"].name and "#" not in e["obj"].name and not e["attr"].startswith("__") \
-                        and (".instruments." in e["obj"].cls or ".features." in e["obj"].cls or e["obj"].cls.endswith(".Hedger")) and e["attr"] not in ("training",):
+                        and (".instruments." in e["obj"].cls or ".features." in e["obj"].cls or (e["obj"].cls.endswith(".Hedger") and e["attr"].startswith("_"))) and e["attr"] not in ("training",):
                     # an attribute stored on an instrument, derivative, feature or the hedger itself, that existed before the call, outlives it (memoised
                     # market data, a cached binding, a kept optimiser): the next result depends on the call history
                     bad = f"stores attribute {e['attr']!r} on {e['obj']!r} (state that outlives the call)"
